@@ -165,6 +165,11 @@ def check_case(case):
     vio, dis = [], []
     mload = dec_stat(out[0])
     d = same_loaded(im["load"], mload)
+    if d and (d.startswith("group order") or d.startswith("metric order")) and im["load"][0] == "ok" \
+            and sorted(im["load"][2]) == sorted(mload[2]) and sorted(im["load"][3]) == sorted(mload[3]):
+        dis.append("loader differs from the model in name order only: " + d)     # not a C20 matter; values are keyed by name
+        reordered = ("ok", im["load"][1], mload[2], mload[3], im["load"][4])
+        d = same_loaded(reordered, mload)
     if d:
         vio.append("loaded table is not the file's table: " + d)
         return vio, dis, (2001, model_in, out), False, "load-differs"
